@@ -213,6 +213,22 @@ pub fn worker<P: Prop>(tier: Tier, seed: u64, idx: usize, seed_idx: usize, cases
         max_global_rejects: 1 << 20,
         ..Config::default()
     };
+    // per-case watchdog: a case that runs this long is stuck in a loop the hooks cannot see (exit code 3)
+    let case_started = std::sync::Arc::new(std::sync::atomic::AtomicU64::new(0));
+    {
+        let cs = case_started.clone();
+        let limit: u64 = std::env::var("RV_CASE_TIMEOUT_S").ok().and_then(|s| s.parse().ok()).unwrap_or(20);
+        std::thread::spawn(move || loop {
+            std::thread::sleep(std::time::Duration::from_millis(500));
+            let st = cs.load(std::sync::atomic::Ordering::Relaxed);
+            if st != 0 {
+                let now = std::time::SystemTime::now().duration_since(std::time::UNIX_EPOCH).map(|d| d.as_secs()).unwrap_or(0);
+                if now > st + limit {
+                    std::process::exit(3);
+                }
+            }
+        });
+    }
     let mut runner = TestRunner::new(cfg);
     let strat = P::strategy(tier);
     let res = runner.run(&strat, |case| {
@@ -220,6 +236,7 @@ pub fn worker<P: Prop>(tier: Tier, seed: u64, idx: usize, seed_idx: usize, cases
         if let Some(c) = cur.borrow_mut().as_mut() {
             c.put(&body);
         }
+        case_started.store(std::time::SystemTime::now().duration_since(std::time::UNIX_EPOCH).map(|d| d.as_secs()).unwrap_or(0), std::sync::atomic::Ordering::Relaxed);
         let rep = match std::panic::catch_unwind(std::panic::AssertUnwindSafe(|| P::run(&case))) {
             Ok(r) => r,
             Err(p) => {
@@ -472,6 +489,7 @@ pub fn supervise(pi: PropInfo, args: SupArgs, replay_files: Vec<PathBuf>, simpli
     let watchdog_s: u64 = std::env::var("RV_WATCHDOG_S").ok().and_then(|s| s.parse().ok()).unwrap_or(if args.tier == Tier::Quick { 900 } else { 6 * 3600 });
     let mut results: Vec<WorkerResult> = Vec::new();
     let mut crashed: Vec<(usize, &str, String)> = Vec::new();
+    let mut timed_out: Vec<(usize, &str)> = Vec::new();
     let mut hung = false;
     for (w, profile, mut c) in children {
         loop {
@@ -480,6 +498,8 @@ pub fn supervise(pi: PropInfo, args: SupArgs, replay_files: Vec<PathBuf>, simpli
                     use std::os::unix::process::ExitStatusExt;
                     if let Some(sig) = st.signal() {
                         crashed.push((w, profile, format!("signal {sig}")));
+                    } else if st.code() == Some(3) {
+                        timed_out.push((w, profile));
                     } else if st.code() != Some(0) {
                         crashed.push((w, profile, format!("exit code {:?}", st.code())));
                     } else if let Ok(b) = std::fs::read(outdir.join(format!("res-{w}.json"))) {
@@ -494,7 +514,7 @@ pub fn supervise(pi: PropInfo, args: SupArgs, replay_files: Vec<PathBuf>, simpli
                         let _ = c.kill();
                         let _ = c.wait();
                         hung = true;
-                        crashed.push((w, profile, "hang (watchdog)".to_string()));
+                        timed_out.push((w, profile));
                         break;
                     }
                     std::thread::sleep(std::time::Duration::from_millis(10));
@@ -504,8 +524,22 @@ pub fn supervise(pi: PropInfo, args: SupArgs, replay_files: Vec<PathBuf>, simpli
         }
     }
 
-    // 3. workers that died: the case they were running is the reproduction
+    // 3a. workers stopped by a watchdog: not a verdict (exit 2); keep the case for inspection
     let mut infra = false;
+    for (w, profile) in &timed_out {
+        infra = true;
+        if let Some(body) = read_cur(&outdir.join(format!("cur-{w}"))) {
+            let dir = Path::new(VERIF).join("harness").join("target").join("timeouts");
+            let _ = std::fs::create_dir_all(&dir);
+            let f = dir.join(format!("{id}-{:016x}.json", fnv(&body)));
+            if let Ok(case) = serde_json::from_slice::<serde_json::Value>(&body) {
+                let rf = ReplayFile { property: id.to_string(), expected: "hold".into(), note: format!("case did not finish within the watchdog [profile {profile}]"), case };
+                let _ = std::fs::write(&f, serde_json::to_vec(&rf).unwrap());
+                eprintln!("worker {w} [{profile}] was stopped by the watchdog; the case it was running is in {}", f.display());
+            }
+        }
+    }
+    // 3b. workers that died: the case they were running is the reproduction
     for (w, profile, how) in &crashed {
         let Some(body) = read_cur(&outdir.join(format!("cur-{w}"))) else {
             eprintln!("worker {w} died ({how}) without a recorded case");
@@ -523,7 +557,12 @@ pub fn supervise(pi: PropInfo, args: SupArgs, replay_files: Vec<PathBuf>, simpli
         };
         write_tmp(&case);
         let bad = |o: &ChildOutcome| matches!(o, ChildOutcome::Crashed(_));
-        let first = replay_in_child(profile, &tmp, 60);
+        let first = replay_in_child(profile, &tmp, 30);
+        if matches!(&first, ChildOutcome::Crashed(h) if h == "hang") {
+            eprintln!("worker {w} died ({how}); replaying its case alone hangs: inconclusive");
+            infra = true;
+            continue;
+        }
         if !bad(&first) {
             if let ChildOutcome::Violation(out) = first {
                 // deterministic as a violation rather than a crash: still a failing input
@@ -549,7 +588,7 @@ pub fn supervise(pi: PropInfo, args: SupArgs, replay_files: Vec<PathBuf>, simpli
                 }
                 budget -= 1;
                 write_tmp(&cand);
-                if bad(&replay_in_child(profile, &tmp, 60)) {
+                if matches!(replay_in_child(profile, &tmp, 20), ChildOutcome::Crashed(ref h) if h != "hang") {
                     case = cand;
                     progress = true;
                     break;
